@@ -21,8 +21,11 @@ EXPLANATION = (
     "of rank id / active range / default sources the property states.  "
     "Fiber attribute queries consult the owner first; Rank.append sets the "
     "owner after estimating the shape; Rank.getShape(authoritative=True) "
-    "returns None for estimated shapes.  Coordinates inside shape / active "
-    "range are value properties and are not decided.")
+    "returns None for estimated shapes; (R5) the active range swizzleRanks "
+    "re-computes is min / max over candidates filtered so that start <= first "
+    "and end > last stored coordinate; the pair-style shape fold prepends over "
+    "the reversed prefix.  Coordinates inside shape / active range elsewhere "
+    "are value properties and are not decided.")
 RULE = ("one obligation per (producer x required attribute), per lazy "
         "builder x {rank id, active range, default}, per owner-first query")
 
